@@ -47,6 +47,10 @@ type ProcPlan struct {
 // so a workload holds fewer panicking operations than workers).
 const panicBase = -100000
 
+// Operations numbered >= bothBase return a value together with an error (an
+// Operator is free to): the one result must carry both.
+const bothBase = 1000000
+
 // effectiveThreads is what NewProcessor documents: a thread count below 1 or
 // above GOMAXPROCS means GOMAXPROCS (pinned by the harness).
 func effectiveThreads(t int) int {
@@ -75,6 +79,9 @@ func (o procOp) Operation() (interface{}, error) {
 			_ = a[k]
 		}
 		panic(fmt.Sprintf("operation %d panics", k))
+	}
+	if o.v >= bothBase {
+		return o.v, procErr{o.v}
 	}
 	if o.v < 0 {
 		return nil, procErr{-o.v}
@@ -126,7 +133,13 @@ func runProcessor(t *testing.T, c *Case, o RunOpts) *Result {
 						}
 						if err != nil {
 							var pe procErr
-							if errors.As(err, &pe) {
+							if errors.As(err, &pe) && pe.n >= bothBase {
+								if n, ok := v.(int); ok && n == pe.n {
+									got = append(got, n)
+								} else {
+									sim.Fail("oracle", "processor-result", fmt.Sprintf("operation %d returned its value together with an error; the result is (%v, %v)", pe.n, v, err))
+								}
+							} else if errors.As(err, &pe) {
 								got = append(got, -pe.n)
 							}
 						} else if n, ok := v.(int); ok {
@@ -175,7 +188,15 @@ func runProcessor(t *testing.T, c *Case, o RunOpts) *Result {
 					if err != nil {
 						var pe procErr
 						var pn int
-						if errors.As(err, &pe) && v == nil {
+						if errors.As(err, &pe) && pe.n >= bothBase {
+							if n, ok := v.(int); ok && n == pe.n {
+								got = append(got, n)
+								sim.Probe("result_with_value_and_error")
+							} else {
+								sim.Fail("oracle", "processor-result", fmt.Sprintf("operation %d returned its value together with an error; the result is (%v, %v)", pe.n, v, err))
+								got = append(got, 0)
+							}
+						} else if errors.As(err, &pe) && v == nil {
 							got = append(got, -pe.n)
 						} else if i := strings.Index(err.Error(), "panic: 70"); i >= 0 && v == nil {
 							// the recovered integer payload of a panicking operation
@@ -283,6 +304,9 @@ func genProcessor(r *simrt.RNG) *Case {
 			v := i + 1
 			if r.Intn(4) == 0 {
 				v = -v
+				if r.Intn(3) == 0 {
+					v = bothBase + i + 1 // fails, and hands back a value as well
+				}
 			}
 			pl.Ops = append(pl.Ops, v)
 		}
@@ -304,6 +328,9 @@ func genProcessor(r *simrt.RNG) *Case {
 		}
 		if pl.CollectFirst && r.Intn(4) == 0 {
 			v = 0 // an operation whose value and error are both nil
+		}
+		if v < 0 && r.Intn(3) == 0 {
+			v = bothBase + i + 1 // fails, and hands back a value as well
 		}
 		pl.Ops = append(pl.Ops, v)
 	}
